@@ -40,13 +40,14 @@ C19_INST = {"files": [
 
 CHECKS = {
     "C01": {
-        "bounds": {"quick": "tokenizer: all byte strings <= 2 bytes (all values), <= 3 (lexical alphabet), <= 5 (comment alphabet); low-level parser: every token sequence of <= 2 symbolic tokens drawn from a 150-row lexeme table (statement/clause keywords, operators, literals, and rows no tokenizer produces: type-less, empty literal, mismatched literal, unknown type) at statement start and after SELECT / SELECT a FROM / SELECT a FROM t WHERE, with and without a trailing EOF, strict x dialect symbolic; truncations: every prefix (cut at every token) of a 34-statement corpus covering each parser production (MATCH..AGAINST, CASE/CAST, window frames, ROLLUP/CUBE/GROUPING SETS, FETCH/FOR UPDATE, JSON/array operators, joins, sub-query predicates, SUBSTRING/EXTRACT/POSITION, recursive CTE, set operations, INSERT..ON CONFLICT/ON DUPLICATE KEY, REPLACE, UPDATE, DELETE, MERGE, CREATE TABLE/INDEX/VIEW/MATERIALIZED VIEW, REFRESH, ALTER TABLE/ROLE/POLICY, DROP, TRUNCATE, SHOW, DESCRIBE, TOP, DISTINCT ON/WINDOW, WITHIN GROUP, casts and tuples), with and without EOF, dialect symbolic; accepted trees are serialised with AST.SQL; linting: linter.LintString with the CLI's ten default rules plus every fixable rule's Fix on every text of <= 3 words from a 20-word table (clause keywords, names, punctuation, comment, newline), alone and after SELECT a FROM t",
+        "bounds": {"quick": "tokenizer: all byte strings <= 2 bytes (all values), <= 3 (lexical alphabet), <= 5 (comment alphabet); low-level parser: every token sequence of <= 2 symbolic tokens drawn from a 150-row lexeme table (statement/clause keywords, operators, literals, and rows no tokenizer produces: type-less, empty literal, mismatched literal, unknown type) at statement start and after SELECT / SELECT a FROM / SELECT a FROM t WHERE, with and without a trailing EOF, strict x dialect symbolic; truncations: every prefix (cut at every token) of a 43-statement corpus covering each parser production (MATCH..AGAINST, CASE/CAST, window frames, ROLLUP/CUBE/GROUPING SETS, FETCH/FOR UPDATE, JSON/array operators, joins, sub-query predicates, SUBSTRING/EXTRACT/POSITION, recursive CTE, set operations, INSERT..ON CONFLICT/ON DUPLICATE KEY, REPLACE, UPDATE, DELETE, MERGE, CREATE TABLE/INDEX/VIEW/MATERIALIZED VIEW, REFRESH, ALTER TABLE/ROLE/POLICY, DROP, TRUNCATE, SHOW, DESCRIBE, TOP, DISTINCT ON/WINDOW, WITHIN GROUP, casts and tuples), with and without EOF, dialect symbolic; accepted trees are serialised with AST.SQL; linting: linter.LintString with the CLI's ten default rules plus every fixable rule's Fix on every text of <= 3 words from a 20-word table (clause keywords, names, punctuation, comment, newline), alone and after SELECT a FROM t; size sweep: gosqlx.Parse / Validate / Format / ParseWithRecovery / ExtractMetadata on statements whose one variable-size element (identifier, back-quoted and double-quoted identifier, string, number, comments, table name with alias: 0..130 characters; parenthesis nest and select list: 0..39) has a symbolic size",
                    "thorough": "linting <= 4 words; tokenizer <= 3 bytes all values / <= 4 lexical / <= 7 comment; parser <= 3 symbolic tokens in each context; every truncation continued by one symbolic token"},
         "outside": "inputs longer than the bounds; formatting / extraction / scanning entry points (covered at kernel strength by C06, C14-C16); the Go runtime; regex paths on symbolic text",
         "assumptions": ["termination = every path stays inside the instruction and call-depth budget (unwinding assertion); exceeding it is reported as a candidate hang and replayed natively under a timeout"],
         "runs": tokruns([], ["VxC04_All2", "VxC04_Lex3", "VxC04_Cmt5"], ["VxC04_All3", "VxC04_Lex4", "VxC04_Cmt7"], generic=["panic", "unwind"]) + parruns(["VxSoup_Start2", "VxSoup_Select2", "VxSoup_From2", "VxSoup_Where2", "VxSoup_Cut0"], ["VxSoup_Start3", "VxSoup_Select3", "VxSoup_From3", "VxSoup_Where3", "VxSoup_Cut1"], ["C01.value_or_error"], generic=["panic", "unwind"]) + [
             {"pkg": "cmd/gosqlx/cmd", "harness": h, "tiers": [t], "expect_asserts": ["C01.lint_returns"], "generic": ["panic", "unwind"], "budget_is_violation": True, "thorough": {"timeout": 7200}}
-            for h, t in (("VxC01_Lint3", "quick"), ("VxC01_LintFrom3", "quick"), ("VxC01_Lint4", "thorough"), ("VxC01_LintFrom4", "thorough"))],
+            for h, t in (("VxC01_Lint3", "quick"), ("VxC01_LintFrom3", "quick"), ("VxC01_Lint4", "thorough"), ("VxC01_LintFrom4", "thorough"))] + [
+            {"pkg": "pkg/gosqlx", "harness": "VxC01_Sizes", "args": {"replace": "context.WithTimeout=VxTimeoutCtx"}, "expect_asserts": ["C01.size_returns"], "generic": ["panic", "unwind"], "budget_is_violation": True}],
     },
     "C02": {
         "bounds": {"quick": "byte limit: every input length 0..32 MiB (symbolic 32-bit length, content never read) for Tokenize and TokenizeContext; token limit: source instantiated at MaxTokens=2, all inputs <= 5 bytes over {a space ,}; depth limit: every current depth 0..200 for parseExpression and parseCommonTableExpr; recursion accounting: every *Parser method re-entered while active must see a larger depth, for all <= 3-token continuations (150-row statement/expression lexeme table) of 5 contexts (statement start, SELECT, SELECT * FROM, SELECT * FROM t JOIN, SELECT a FROM t WHERE) and every start depth 0..89",
@@ -235,7 +236,7 @@ CHECKS = {
         "runs": parruns(["VxC12_Soup_Start3", "VxC12_Script2q"], ["VxC12_Soup_Start4", "VxC12_Soup_Semi4", "VxC12_Script2", "VxC12_Script3", "VxC12_Soup_Semi3"], ["C12.iff", "C12.no_loss", "C12.one_error_per_malformed"], generic=["unwind"]),
     },
     "C13": {
-        "bounds": {"quick": "every failing path of the C01 runs (same bounds, including every truncation of the 34-statement corpus): tokenizer errors and low-level parser errors", "thorough": "same as C01 thorough"},
+        "bounds": {"quick": "every failing path of the C01 runs (same bounds, including every truncation of the 43-statement corpus): tokenizer errors and low-level parser errors", "thorough": "same as C01 thorough"},
         "outside": "wording of messages and hints; errors of the gosqlx wrappers (checked by C07 harness); reproducibility across Go map iteration order",
         "assumptions": ["documented code families: E1xxx tokenizer, E2xxx parser"],
         "runs": tokruns(["C13.tok_structured", "C13.tok_family"], ["VxC04_All2", "VxC04_Lex3"], ["VxC04_All3", "VxC04_Lex4"]) + parruns(["VxSoup_Start2", "VxSoup_Select2", "VxSoup_From2", "VxSoup_Where2", "VxSoup_Cut0"], ["VxSoup_Cut1", "VxSoup_Start3", "VxSoup_Select3", "VxSoup_From3", "VxSoup_Where3"], ["C13.structured", "C13.family"]),
@@ -250,11 +251,12 @@ CHECKS = {
         "runs": tokruns(["C04.eof_last", "C04.kind", "C04.value"], ["VxC04_All2", "VxC04_Lex3", "VxC04_Cmt5", "VxC04_Words2"], ["VxC04_All3", "VxC04_Lex4", "VxC04_Cmt7", "VxC04_Words2"]),
     },
     "C05": {
-        "bounds": {"quick": "token/comment positions for all byte strings of length <= 2 (all bytes), <= 3 (lexical alphabet), <= 5 (comment alphabet), <= 4 (position alphabet {a 1 ' - / * space tab \\n \\r}); the word-slot inputs of C04 (multi-word keywords across spaces and newlines); parser side: the converter's position mapping is index-aligned with the parser tokens and Parser.currentLocation reads the right entry, for every sequence of <= 3 symbolic tokenizer tokens from a 27-row table that includes every multi-word keyword",
+        "bounds": {"quick": "token/comment positions for all byte strings of length <= 2 (all bytes), <= 3 (lexical alphabet), <= 5 (comment alphabet), <= 4 (position alphabet {a 1 ' - / * space tab \\n \\r}); the word-slot inputs of C04 (multi-word keywords across spaces and newlines); parser side: the converter's position mapping is index-aligned with the parser tokens and Parser.currentLocation reads the right entry, for every sequence of <= 3 symbolic tokenizer tokens from a 27-row table that includes every multi-word keyword; error blame: every accepted statement of the 43-statement truncation corpus corrupted at every token (cut, deleted, or replaced by one of ) SELECT x ,), dialect symbolic: a located parser error lies at the start of a token, and when its message names the offending token (got X / unexpected token: X) that is the token starting there",
                    "thorough": "length <= 3 all bytes; <= 4 lexical; <= 7 comment; <= 5 position alphabet; mapping for <= 4 tokens"},
-        "outside": "exact columns are asserted for tab-free ASCII input only (tabs/multi-byte: ordering and containment only); which token a parser error is attributed to (only that the attributed token's location is the right one)",
+        "outside": "exact columns are asserted for tab-free ASCII input only (tabs/multi-byte: ordering and containment only); whether the parser blames the most helpful token (backtracking productions may blame an earlier one); only that the location it reports is where the token it names starts",
         "assumptions": ["expected positions are computed from the reference lexer's byte offsets"],
         "runs": tokruns(["C05.start", "C05.end", "C05.one_based"], ["VxC04_All2", "VxC04_Lex3", "VxC04_Cmt5", "VxC04_Pos4", "VxC04_Words2"], ["VxC04_All3", "VxC04_Lex4", "VxC04_Cmt7", "VxC04_Pos5", "VxC04_Words2"]) + [
+            {"pkg": PAR, "harness": "VxC05_Blame", "args": {"max-steps": 400000}, "expect_asserts": ["C05.blame_is_a_token", "C05.blame_names_its_token"], "budget_judged_by": "C01"},
             {"pkg": PAR, "harness": "VxC05_Mapping3", "tiers": ["quick"], "expect_asserts": ["C05.mapping_aligned", "C05.mapping_span", "C05.parser_location"]},
             {"pkg": PAR, "harness": "VxC05_Mapping4", "tiers": ["thorough"], "expect_asserts": ["C05.mapping_aligned", "C05.mapping_span", "C05.parser_location"]},
         ],
